@@ -521,8 +521,12 @@ fn gen_args(rng: &mut Rng) -> Sx {
     let n = rng.usize(5);
     let (g1, g2) = prog::bls_points();
     let mut items = Vec::new();
+    // 1/5 of the lists: every item is an integer at a machine-word boundary
+    let hot = rng.chance(1, 5);
     for _ in 0..n {
-        let b: Vec<u8> = match rng.below(12) {
+        let b: Vec<u8> = match rng.below(13) {
+            _ if hot => prog::boundary_int(rng, true),
+            12 => prog::boundary_int(rng, false),
             0 => vec![],
             1 => vec![rng.below(256) as u8],
             2 => prog::int_bytes(rng.below(100000) as i128 - 50000),
